@@ -53,6 +53,9 @@ def _var_names(tokens, rng, kind="str"):
     if kind == "int":          # small (cached by CPython) and large ints
         vals = rng.sample(list(range(0, 30)) + list(range(1000, 1020)), len(tokens))
         return {t: vals[i] for i, t in enumerate(tokens)}
+    if kind == "smallint":     # 0..n-1 in a shuffled assignment: labels that coincide with POSITIONS (index levels, axes, columns)
+        vals = rng.sample(range(len(tokens)), len(tokens))
+        return {t: vals[i] for i, t in enumerate(tokens)}
     if kind == "tuple":
         vals = rng.sample(list(range(0, 30)) + list(range(1000, 1020)), len(tokens))
         return {t: ("t", vals[i]) for i, t in enumerate(tokens)}
